@@ -17,6 +17,7 @@ CRATE_DIR=$(echo "$DEMO_DST" | sed -E 's#/tests/.*##')
 PKG=$(grep -m1 '^name' "$CRATE_DIR/Cargo.toml" | sed -E 's/name *= *"(.*)"/\1/')
 TEST=$(basename "$DEMO_DST" .rs)
 REL=""; grep -q -- "--release" "$OUT/$X.md" && REL="--release"
+grep -q -- "--features concurrent" "$OUT/$X.md" && REL="$REL --features concurrent"
 git apply "$OUT/$X.patch" || { echo "patch does not apply" >> "$R"; exit 1; }
 if cargo test --workspace --offline --no-fail-fast >"$OUT/$X.confirm-suite.log" 2>&1; then echo "suite-with-change: PASS" >> "$R"; else echo "suite-with-change: FAIL" >> "$R"; fi
 mkdir -p "$(dirname "$DEMO_DST")"; cp "$OUT/$X-demo.rs" "$DEMO_DST"
